@@ -39,7 +39,10 @@ class C08(Prop):
         "waitpid/Popen.poll report the exit exactly once (pty: a second waitpid raises ECHILD); SIGKILL ends the "
         "shell; os.execve failure under pty.fork happens in the child",
         "after the script every reader gets EOF unless the case says a descendant holds that pipe",
-        "the stdin worker leaves its loop by itself once program_finished is set (C13_terminates_after_finish)",
+        "the stdin worker leaves its loop by itself once program_finished is set (C13_terminates_after_finish); "
+        "this assumes an input read never blocks once the stream was reported ready -- F-C13b and F-C13d show "
+        "real reads that do block (buffered text pipes, multi-byte terminal input), and then join(stdin worker), "
+        "which has no timeout, blocks with them",
     ]
     not_modelled = [
         "scheduler preemption inside a Python statement (events are delivered one at a time and the main thread is "
@@ -49,6 +52,9 @@ class C08(Prop):
         "zombies -- measured by the real-child runs (tests), not proved",
         "Local.start/kill/stop/returncode/process_is_finished themselves (real-child runs only)",
         "wall-clock bounds: the model counts main-thread steps and expired 1 s joins, not seconds",
+        "KeyboardInterrupt while the main thread is inside a join (it propagates out of _finish's finally block "
+        "and leaves the remaining workers unjoined) -- only interrupts inside wait() and right after the reaping "
+        "poll are modelled",
     ]
 
     def generate(self, rng, tier, n):
